@@ -1,5 +1,5 @@
 """C06 — the time grid is the declared partition of [t0, t0+T]."""
-from .nlpprop import NlpProp, TRUSTED, ASSUMPTIONS
+from .nlpprop import NlpProp, TRUSTED, ASSUMPTIONS, density_nodes, fixed_horizon_bound_violation
 from .. import engine
 
 OPTS = {"methods": ["MS", "SS", "DC"], "deg_max": 2, "intgs": ["rk", "expl_euler"], "N_min": 1, "N_max": 6, "M_max": 4,
@@ -31,13 +31,6 @@ def probe_points(rng, case, pts):
     return pts, probes
 
 
-def density_nodes(a, b, N):
-    """nodes tau_i with E(tau_i) = i/N for the density a + b*tau on [0,1] (closed form)"""
-    import math
-    I = a + b / 2.0
-    return [(-a + math.sqrt(a * a + 2.0 * b * (i / N) * I)) / b for i in range(N + 1)]
-
-
 def extra_judge(case, mvals, r):
     d = engine.compare_time(mvals, r["extra"]["time"])
     if d:
@@ -66,44 +59,6 @@ def classify(case, d):
         if any("minmax" in str(x.get("what", "")) for x in d):
             return "F3c-function-grid-minmax-ignored"
     return None
-
-
-def fixed_horizon_bound_violation(case, parametric=False):
-    """True if the interval lengths are numeric (fixed T, grid not localized, not free) and one of the intervals is
-    shorter than min / longer than max: no NLP constraint can enforce the bound, the problem must be refused"""
-    from ..common import Fr
-    m = case["method"]
-    g = m.get("grid") or {}
-    Th = case.get("T", {})
-    if "fixed" not in Th and not (parametric and "param" in Th):
-        return False          # (the interval lengths do not depend on t0)
-    if g.get("localize_t0") or g.get("localize_T") or g.get("class", "Uniform") == "Free":
-        return False
-    lo = float(Fr(g["min"])) if g.get("min") is not None else 0.0
-    hi = float(Fr(g["max"])) if g.get("max") is not None else float("inf")
-    N = m["N"]
-    T = float(Fr(Th["fixed"])) if "fixed" in Th else float(Fr(case["param_values"]["p"][Th["param"]]))
-    cls = g.get("class", "Uniform")
-    if cls == "Uniform":
-        nodes = [i / N for i in range(N + 1)]
-    elif cls == "Geometric":
-        gr = float(Fr(g.get("growth", 1)))
-        if not g.get("local") and N > 1:
-            gr = gr ** (1.0 / (N - 1))
-        w, acc = 1.0, [0.0]
-        for _ in range(N):
-            acc.append(acc[-1] + w)
-            w *= gr
-        nodes = [a / acc[-1] for a in acc]
-    elif cls == "Function":
-        nodes = [float(Fr(v)) for v in g["nodes"]]
-    elif cls == "Density":
-        nodes = density_nodes(float(Fr(g["dens"][0])), float(Fr(g["dens"][1])), N)
-    else:
-        return False
-    lens = [T * (b - a) for a, b in zip(nodes, nodes[1:])]
-    tol = 1e-9
-    return any(L < lo - tol for L in lens) or any(L > hi + tol for L in lens)
 
 
 class C06Prop(NlpProp):
